@@ -5,6 +5,8 @@ CONSTANTS
   MaxFails = 2
   MonotoneCursor = TRUE
   RetryOnError = TRUE
-INVARIANTS CursorAboveBase NothingSkipped
-PROPERTIES AllHandedEventually
+  RestartAtTop = FALSE
+  MaxRestarts = 2
+INVARIANTS CursorAboveBase NothingSkipped AppliedOnlyHanded
+PROPERTIES AllHandedEventually AllAppliedEventually
 CHECK_DEADLOCK FALSE
